@@ -49,7 +49,7 @@ func C13_Truncate() {
 	full := c13Template()
 	cut := verif.Choice("cut", len(full)+1)
 	out, log := &symio.Writer{}, &symio.Writer{}
-	_, err := bcl.LoadProg(bytes.NewReader(full[:cut]), "x", bcl.OptOutput(out), bcl.OptLogger(log))
+	_, err := bcl.LoadProg(bytes.NewReader(full[:cut]), "x", bcl.OptOutput(out), bcl.OptLogger(log), bcl.OptDisasm(verif.Bool("disasm")))
 	verif.Observe("cut", cut)
 	verif.Observe("len", len(full))
 	verif.Observe("err", err != nil)
